@@ -54,7 +54,8 @@ for name, (op, cnt) in BIN.items():
                                                "self.value == old(self.value)"])})
 
 # reflected operators: scalar on the left, operand order preserved
-RBIN = {"__radd__": ("+", dict(add="1")), "__rsub__": ("-", {}), "__rmul__": ("*", dict(mul="1"))}
+RBIN = {"__radd__": ("+", dict(add="1")), "__rsub__": ("-", {}), "__rmul__": ("*", dict(mul="1")),
+        "__rtruediv__": ("/", {})}
 for name, (op, cnt) in RBIN.items():
     contract(F, "Payload." + name, types=dict(self="Payload", other="U"), returns="Payload",
              modifies=COUNTERS,
@@ -65,7 +66,8 @@ for name, (op, cnt) in RBIN.items():
 # in-place operators: same box, updated value
 IBIN = {"__iadd__": ("+", dict(update="1", add="(1 if old(self.value) != 0 else 0)")),
         "__isub__": ("-", {}),
-        "__imul__": ("*", dict(mul="1", update="1"))}
+        "__imul__": ("*", dict(mul="1", update="1")),
+        "__itruediv__": ("/", {})}
 for name, (op, cnt) in IBIN.items():
     contract(F, "Payload." + name, cases=OPERANDS, case_names=OPNAMES, returns="Payload",
              modifies=COUNTERS + ["self.value"],
@@ -104,6 +106,9 @@ contract(F, "Payload.maybe_box", cases=[dict(value="U"), dict(value="Payload")],
          per_case={"scalar": dict(ensures=["fresh(result)", "result.value == value"]),
                    "box": dict(ensures=["result is value", "value.value == old(value.value)"])})
 
-contract(F, "Payload.isEmpty", cases=[dict(p="Payload", default="U")], case_names=["box"],
+contract(F, "Payload.isEmpty", cases=[dict(p="Payload", default="U"), dict(p="Payload")],
+         case_names=["box", "box_default0"],
          returns="bool", modifies=[],
-         ensures={"C12": ["result == (p.value == default)"]})
+         ensures={"C12": []},
+         per_case={"box": dict(ensures=["result == (p.value == default)"]),
+                   "box_default0": dict(ensures=["result == (p.value == 0)"])})
